@@ -144,7 +144,7 @@ def stepSession (cx : Ctx) (tc : TapCtx) (e : IEnv) : M IEnv :=
   match e.tce with
   | some t =>
     match t.iterate tc with
-    | (.failed, _) => .error (.script .UNKNOWN_ERROR)     -- `return false` without touching serror
+    | (.failed, _) => .error (.script .WITNESS_PROGRAM_MISMATCH)     -- `return set_error(serror, SCRIPT_ERR_WITNESS_PROGRAM_MISMATCH)`
     | (.processing, t') => pure { e with tce := some t', currOpSeq := e.currOpSeq + 1 }
     | (.done, t') =>
       pure { e with tce := none, currOpSeq := e.currOpSeq + 1,
